@@ -31,6 +31,9 @@ pub struct BfsResult {
     pub sample_histories: Vec<Vec<u8>>,
 }
 
+/// explicit cap on the number of distinct states kept (visited set + frontier histories)
+pub const MAX_STATES: usize = 40_000_000;
+
 pub fn bfs(n_ops: usize, max_depth: usize, deadline: Instant, threads: usize, max_artefacts: usize, step: &(dyn Fn(&[u8]) -> StepOut + Sync)) -> BfsResult {
     let mut res = BfsResult::default();
     let mut seen: HashSet<u64> = HashSet::new();
@@ -52,63 +55,83 @@ pub fn bfs(n_ops: usize, max_depth: usize, deadline: Instant, threads: usize, ma
             res.capped = true;
             break;
         }
-        // expand the frontier in parallel
-        let work: Vec<(usize, u8)> = (0..frontier.len()).flat_map(|i| (0..n_ops as u8).map(move |o| (i, o))).collect();
-        let out: Mutex<Vec<(usize, u8, StepOut)>> = Mutex::new(Vec::with_capacity(work.len()));
-        let next_idx = std::sync::atomic::AtomicUsize::new(0);
-        let timed_out = std::sync::atomic::AtomicBool::new(false);
-        std::thread::scope(|s| {
-            for _ in 0..threads.max(1) {
-                s.spawn(|| {
-                    let mut local = Vec::new();
-                    loop {
-                        let k = next_idx.fetch_add(256, std::sync::atomic::Ordering::Relaxed);
-                        if k >= work.len() {
-                            break;
-                        }
-                        if Instant::now() > deadline {
-                            timed_out.store(true, std::sync::atomic::Ordering::Relaxed);
-                            break;
-                        }
-                        for (i, o) in &work[k..(k + 256).min(work.len())] {
-                            let mut h = frontier[*i].clone();
-                            h.push(*o);
-                            let so = step(&h);
-                            local.push((*i, *o, so));
-                        }
-                    }
-                    out.lock().unwrap().extend(local);
-                });
-            }
-        });
-        let mut out = out.into_inner().unwrap();
-        if timed_out.load(std::sync::atomic::Ordering::Relaxed) {
-            res.capped = true;
-        }
-        // canonical order so that results do not depend on thread timing
-        out.sort_by_key(|(i, o, _)| (*i, *o));
+        // expand the frontier in parallel, in chunks of frontier states so that the buffered step
+        // results (which may carry device images) stay bounded
+        const CHUNK: usize = 4096;
         let mut next: Vec<Vec<u8>> = Vec::new();
-        for (i, o, so) in out {
-            res.replays += 1;
-            let Some(c) = so.canon else { continue };
-            res.transitions += 1;
-            let mut h = frontier[i].clone();
-            h.push(o);
-            if let Some((sig, detail)) = so.violation {
-                if res.violations.len() < 50 {
-                    res.violations.push(ViolationRec { choices: h.iter().map(|x| *x as u32).collect(), sig, detail, desc: String::new(), kind: "oracle" });
+        let mut lo = 0;
+        while lo < frontier.len() && !res.capped {
+            let hi = (lo + CHUNK).min(frontier.len());
+            let work: Vec<(usize, u8)> = (lo..hi).flat_map(|i| (0..n_ops as u8).map(move |o| (i, o))).collect();
+            let out: Mutex<Vec<(usize, u8, StepOut)>> = Mutex::new(Vec::with_capacity(work.len()));
+            let next_idx = std::sync::atomic::AtomicUsize::new(0);
+            let timed_out = std::sync::atomic::AtomicBool::new(false);
+            let keep_artefacts = res.artefacts.len() < max_artefacts;
+            let art_snapshot = &art_seen;
+            let frontier_ref = &frontier;
+            std::thread::scope(|s| {
+                for _ in 0..threads.max(1) {
+                    s.spawn(|| {
+                        let mut local = Vec::new();
+                        loop {
+                            let k = next_idx.fetch_add(256, std::sync::atomic::Ordering::Relaxed);
+                            if k >= work.len() {
+                                break;
+                            }
+                            if Instant::now() > deadline {
+                                timed_out.store(true, std::sync::atomic::Ordering::Relaxed);
+                                break;
+                            }
+                            for (i, o) in &work[k..(k + 256).min(work.len())] {
+                                let mut h = frontier_ref[*i].clone();
+                                h.push(*o);
+                                let mut so = step(&h);
+                                // images already collected (or no longer wanted) are dropped here
+                                if let Some((key, _)) = &so.artefact {
+                                    if !keep_artefacts || art_snapshot.contains(key) {
+                                        so.artefact = None;
+                                    }
+                                }
+                                local.push((*i, *o, so));
+                            }
+                        }
+                        out.lock().unwrap().extend(local);
+                    });
+                }
+            });
+            let mut out = out.into_inner().unwrap();
+            if timed_out.load(std::sync::atomic::Ordering::Relaxed) {
+                res.capped = true;
+            }
+            // canonical order so that results do not depend on thread timing
+            out.sort_by_key(|(i, o, _)| (*i, *o));
+            for (i, o, so) in out {
+                res.replays += 1;
+                let Some(c) = so.canon else { continue };
+                res.transitions += 1;
+                let mut h = frontier[i].clone();
+                h.push(o);
+                if let Some((sig, detail)) = so.violation {
+                    if res.violations.len() < 50 {
+                        res.violations.push(ViolationRec { choices: h.iter().map(|x| *x as u32).collect(), sig, detail, desc: String::new(), kind: "oracle" });
+                    }
+                }
+                if let Some((k, a)) = so.artefact {
+                    if art_seen.insert(k) && res.artefacts.len() < max_artefacts {
+                        res.artefacts.push(a);
+                    }
+                }
+                if seen.insert(c) {
+                    if res.sample_histories.len() < 3 && h.len() >= 2 {
+                        res.sample_histories.push(h.clone());
+                    }
+                    next.push(h);
                 }
             }
-            if let Some((k, a)) = so.artefact {
-                if art_seen.insert(k) && res.artefacts.len() < max_artefacts {
-                    res.artefacts.push(a);
-                }
-            }
-            if seen.insert(c) {
-                if res.sample_histories.len() < 3 && h.len() >= 2 {
-                    res.sample_histories.push(h.clone());
-                }
-                next.push(h);
+            lo = hi;
+            // memory guard: the visited set and the frontier are all that grows
+            if seen.len() > MAX_STATES {
+                res.capped = true;
             }
         }
         res.states += next.len() as u64;
